@@ -273,7 +273,10 @@ impl Prop for C02 {
             tier.pick(4, 5)
         );
         let it = nodes.into_iter().map(move |node| AstCase { node, flags: String::new(), inputs: Inputs::Lit(inputs.clone()) });
-        vec![("exhaustive-small".into(), scope, Box::new(it))]
+        let (name, scope2, it2) = super::c01::macro_enumeration(tier);
+        // spans are only defined for regexes that cannot match the empty string
+        let it2 = it2.filter(|c| !c.node.possibly_empty());
+        vec![("exhaustive-small".into(), scope, Box::new(it)), (name, format!("the non-nullable ones among: {scope2}"), Box::new(it2))]
     }
     fn check(&self, case: &AstCase, ctx: &mut Ctx) -> Verdict {
         check_spans("C02", case, ctx)
